@@ -563,7 +563,9 @@ func newRequestForRetry(req *http.Request, location string) (*http.Request, erro
 		return nil, errors.New(tr.Tr.Get("refusing insecure redirect: HTTPS to HTTP"))
 	}
 
-	sameHost := req.URL.Host == newReq.URL.Host
+	// "Same host" means same scheme as well: http://host and https://host
+	// are different origins (and different ports).
+	sameHost := req.URL.Host == newReq.URL.Host && req.URL.Scheme == newReq.URL.Scheme
 	for key := range req.Header {
 		if key == "Authorization" {
 			if !sameHost {
